@@ -159,6 +159,10 @@ def scenarios():
     dec_vs('delete-deny', [pol('a'), pol('c', 'deny')], lambda st: st.delete('c'))
     dec_vs('update-to-deny', [pol('a')], lambda st: st.update(pol('a', 'deny')))
     dec_vs('add-first', [], lambda st: st.add(pol('a')))
+    # a store larger than the page of 50 that the paged listings use: a matching allow policy first, the matching deny
+    # policy at position 50, policies of somebody else in between - and one of those is deleted meanwhile
+    big = [pol('p00')] + [pol('p%02d' % i, subj='somebody-else') for i in range(1, 50)] + [pol('p50', 'deny'), pol('p51')]
+    dec_vs('delete-irrelevant-of-52', big, lambda st: st.delete('p01'))
 
     def make_two_adds(w):
         return [lambda: w.st.add(pol('x')), lambda: w.st.add(pol('x', 'deny'))], ['add', 'add'], {}
